@@ -562,3 +562,87 @@ Section TransposeL.
     T (Block i b td l) = Block fresh (match b with BRow => BCol | BDiag => BDiag | BCol => BRow end) td (map T l).
   Proof. reflexivity. Qed.
 End TransposeL.
+
+From Furax Require Import Lemmas.BuildL.
+(* ---------- the transpose of a well-formed operator is well formed ---------- *)
+Section TransposeWf.
+  Variable K : Type.
+  Notation op := (op K).
+  Notation T := (@transpose K).
+  Notation wfo := (@wfo K).
+  Notation swapped := (swapped K).
+
+  Lemma swapped_in e : swapped e -> in_struct (T e) = out_struct e.
+  Proof. unfold swapped, in_struct, out_struct. intros ->. reflexivity. Qed.
+  Lemma swapped_out e : swapped e -> out_struct (T e) = in_struct e.
+  Proof. unfold swapped, in_struct, out_struct. intros ->. reflexivity. Qed.
+
+  Lemma chain_ok_tail (a : op) r : chain_ok (a :: r) = true -> chain_ok r = true.
+  Proof. destruct r as [|b r]; [reflexivity|]. cbn [chain_ok]. intros H. apply andb_true_iff in H as [_ H]. exact H. Qed.
+
+  Lemma chain_ok_rev_T (l : list op) : chain_ok l = true -> Forall swapped l -> chain_ok (rev (map T l)) = true.
+  Proof.
+    induction l as [|a r IH]; intros Hc HF; [reflexivity|]. inversion HF as [|? ? Ha Hr]; subst.
+    cbn [map rev]. apply (chain_ok_app K _ _ a).
+    - apply IH; [eapply chain_ok_tail; eauto|exact Hr].
+    - reflexivity.
+    - intros Hne _. destruct r as [|b r]; [exfalso; now apply Hne|]. cbn [hd]. rewrite last_rev_hd. cbn [map hd].
+      inversion Hr as [|? ? Hb _]; subst. rewrite (swapped_in b Hb), (swapped_out a Ha).
+      cbn [chain_ok] in Hc. apply andb_true_iff in Hc as [Hc _]. apply struct_eqb_eq in Hc. congruence.
+  Qed.
+
+  Lemma map_in_T (l : list op) : Forall swapped l -> map (@in_struct K) (map T l) = map (@out_struct K) l.
+  Proof. induction 1 as [|e r He _ IH]; [reflexivity|]. cbn [map]. now rewrite IH, (swapped_in e He). Qed.
+  Lemma map_out_T (l : list op) : Forall swapped l -> map (@out_struct K) (map T l) = map (@in_struct K) l.
+  Proof. induction 1 as [|e r He _ IH]; [reflexivity|]. cbn [map]. now rewrite IH, (swapped_out e He). Qed.
+
+  Lemma Forall_and (P Q : op -> Prop) l : Forall P l -> Forall Q l -> Forall (fun e => P e /\ Q e) l.
+  Proof. induction 1; intros H'; inversion H'; subst; constructor; auto. Qed.
+
+  Theorem transpose_wf_l : forall e : op, wfo e = true -> sym_square e = true -> wfo (T e) = true.
+  Proof.
+    induction e as [i c si so p|i w e IH|i s|i k s|i l IH|i l IH|i b td l IH] using op_ind'; intros W S.
+    - destruct (returns_self_on_transpose c) eqn:Es.
+      + now rewrite (transpose_symmetric_self K i c si so p Es).
+      + destruct (transpose_prim_cases K i c si so p Es) as [(k & -> & -> & ->)|[(s & d & -> & -> & ->)|(w & Hw & E)]];
+          try reflexivity. rewrite E. cbn [Wf.wfo andb].
+        destruct w; try discriminate Hw; try reflexivity.
+        (* QURotationTransposeOperator is a lazy inverse: QURotationOperator is square *)
+        cbn [transpose] in E. rewrite Es in E. destruct c; try discriminate E; destruct p; try discriminate E;
+          cbn; unfold is_square, in_struct, out_struct; cbn; apply struct_eqb_refl.
+    - cbn [Wf.wfo] in W. apply andb_true_iff in W as [W1 W2]. cbn [Adjoint.sym_square] in S.
+      destruct w; cbn [transpose]; auto.
+      + cbn [Wf.wfo]. rewrite W1, W2. reflexivity.
+      + cbn [Wf.wfo]. rewrite W1, W2. reflexivity.
+    - reflexivity.
+    - reflexivity.
+    - pose proof W as W0. rewrite wfo_comp in W. apply andb_true_iff in W as [W W3]. apply andb_true_iff in W as [W1 W2].
+      cbn [Wf.wfo] in W0. apply andb_true_iff in W0 as [_ W0]. apply (wfo_all K) in W0.
+      cbn [Adjoint.sym_square] in S. apply (all_Forall K (fun e => sym_square e)) in S.
+      pose proof (Forall_mp K _ _ l (Forall_mp K _ _ l IH W0) S) as HW.
+      assert (HS : Forall swapped l).
+      { eapply Forall_impl; [|exact (Forall_and _ _ l W0 S)]. intros e [H1 H2]. now apply transpose_structs_l. }
+      cbn [transpose]. rewrite wfo_comp. rewrite rev_length, map_length, W1. cbn [andb].
+      rewrite (chain_ok_rev_T l W2 HS). cbn [andb].
+      assert (HA : forall l' : list op, Forall (fun e => wfo e = true) l' -> allwf K l' = true).
+      { induction 1 as [|x xs Hx _ IHx]; cbn; [reflexivity|]. now rewrite Hx, IHx. }
+      apply HA. apply Forall_rev. apply Forall_map. exact HW.
+    - cbn [Wf.wfo] in W. apply andb_true_iff in W as [W W0]. apply andb_true_iff in W as [W1 W2]. apply (wfo_all K) in W0.
+      cbn [Adjoint.sym_square] in S. apply (all_Forall K (fun e => sym_square e)) in S.
+      pose proof (Forall_mp K _ _ l (Forall_mp K _ _ l IH W0) S) as HW.
+      assert (HS : Forall swapped l).
+      { eapply Forall_impl; [|exact (Forall_and _ _ l W0 S)]. intros e [H1 H2]. now apply transpose_structs_l. }
+      cbn [transpose Wf.wfo]. rewrite map_length, W1. cbn [andb].
+      unfold sum_ok in *. rewrite (map_in_T l HS), (map_out_T l HS). apply andb_true_iff in W2 as [W2 W2'].
+      rewrite W2, W2'. cbn [andb]. apply (Forall_all K (fun e => wfo e)). apply Forall_map. exact HW.
+    - cbn [Wf.wfo] in W. apply andb_true_iff in W as [W W0]. apply andb_true_iff in W as [W W3]. apply andb_true_iff in W as [W1 W2].
+      apply (wfo_all K) in W0.
+      cbn [Adjoint.sym_square] in S. apply (all_Forall K (fun e => sym_square e)) in S.
+      pose proof (Forall_mp K _ _ l (Forall_mp K _ _ l IH W0) S) as HW.
+      assert (HS : Forall swapped l).
+      { eapply Forall_impl; [|exact (Forall_and _ _ l W0 S)]. intros e [H1 H2]. now apply transpose_structs_l. }
+      cbn [transpose Wf.wfo]. rewrite map_length, W1, W2. cbn [andb].
+      rewrite (Forall_all K (fun e => wfo e) _ (proj2 (Forall_map _ _ _) HW)), andb_true_r.
+      destruct b; [rewrite (map_in_T l HS)|reflexivity|rewrite (map_out_T l HS)]; exact W3.
+  Qed.
+End TransposeWf.
